@@ -146,18 +146,16 @@ def analyse(mod, run, label):
                               Finding("M1-field-not-written", fn.name, "%s.%s" % (t, ",".join(names)), "return:%s" % ("value" if rc is None else rc),
                                       "%s: on a success return (%s) the metadata field(s) %s of %s are not written on every path" % (fn.name, "computed value" if rc is None else "constant %s" % rc, ", ".join(names), t), loc=rel(fn.file) + ":%s" % fn.line))
             # ---- M10: a stored minimum / maximum that is accumulated over the input array comes from a scan that cannot stop early ----
-            for i in fn.insts():
-                if i.op != "store": continue
-                fld = field_of(eng, fi, fn, i.ops[1], k, t)
-                if fld is None or "." in fld or not EXTREME_FIELDS.match(fld): continue
-                v = strip_casts(fn, i.ops[0])
-                if v["k"] != "inst": continue
-                loops = fn.loops()
+            def scan_of(gfn, v):
+                """(header phi of the accumulating loop, early exits) for a value of gfn, or None"""
+                v = strip_casts(gfn, v)
+                if v["k"] != "inst": return None
+                gl = gfn.loops(); gfi = w.fi(gfn).prepare()
                 def header_phi(o, d=0, seen=()):
                     if o["k"] != "inst" or d > 4 or o["v"] in seen: return None
-                    x = fn.imap[o["v"]]
+                    x = gfn.imap[o["v"]]
                     if x.op == "phi":
-                        if x.block.id in loops and any(inc["b"] in loops[x.block.id] for inc in x["incoming"]): return x
+                        if x.block.id in gl and any(inc["b"] in gl[x.block.id] for inc in x["incoming"]): return x
                         for inc in x["incoming"]:
                             r = header_phi(inc["v"], d + 1, seen + (o["v"],))
                             if r is not None: return r
@@ -167,18 +165,32 @@ def analyse(mod, run, label):
                             if r is not None: return r
                     return None
                 ph = header_phi(v)
-                if ph is None: continue                       # accumulated in a loop: a phi at that loop's header
-                body = loops[ph.block.id]
-                # does the loop load elements of a const array parameter?
-                scans = any(x.op == "load" and x.block.id in body and fi.ptr(x.ops[0])[0][0] == "arg" and fn.params[fi.ptr(x.ops[0])[0][1]]["pointee_const"] and not fi.ptr(x.ops[0])[1].is_const() for x in fn.insts())
-                if not scans: continue
-                exits = [(b, sx.id) for b in body for sx in fn.bmap[b].succs if sx.id not in body]
-                early = [e for e in exits if e[0] != ph.block.id]
-                run.m10 = getattr(run, "m10", 0) + 1
-                run.check(not early, "M10-extreme-value-scan-is-complete", {"fn": fn.name, "field": fld},
-                          Finding("M10-extreme-value-scan-stops-early", fn.name, "%s.%s" % (t, fld), "loop",
-                                  "%s accumulates %s over the input array in a loop that can be left before the last element (exit from block %s): the stored value is the extreme of a prefix only" % (
-                                      fn.name, fld, early[0][0] if early else ""), loc=loc(i)))
+                if ph is None: return None
+                body = gl[ph.block.id]
+                scans = any(x.op == "load" and x.block.id in body and gfi.ptr(x.ops[0])[0][0] == "arg" and gfn.params[gfi.ptr(x.ops[0])[0][1]]["pointee_const"] and not gfi.ptr(x.ops[0])[1].is_const() for x in gfn.insts())
+                if not scans: return None
+                exits = [(b0, sx.id) for b0 in body for sx in gfn.bmap[b0].succs if sx.id not in body]
+                return ph, [e for e in exits if e[0] != ph.block.id]
+            for i in fn.insts():
+                if i.op != "store": continue
+                fld = field_of(eng, fi, fn, i.ops[1], k, t)
+                if fld is None or "." in fld or not EXTREME_FIELDS.match(fld): continue
+                v = strip_casts(fn, i.ops[0])
+                cands = []
+                if v["k"] == "arg" and fn.internal:
+                    # a file-local "fill the metadata" helper: the value comes from its callers
+                    for g2 in mod.defined():
+                        for c2 in g2.calls(fn.name): cands.append((g2, c2.ops[v["v"]]))
+                else: cands.append((fn, v))
+                for (gfn, gv) in cands:
+                    sc = scan_of(gfn, gv)
+                    if sc is None: continue
+                    ph, early = sc
+                    run.m10 = getattr(run, "m10", 0) + 1
+                    run.check(not early, "M10-extreme-value-scan-is-complete", {"fn": gfn.name, "field": fld},
+                              Finding("M10-extreme-value-scan-stops-early", gfn.name, "%s.%s" % (t, fld), "loop",
+                                      "%s accumulates %s over the input array in a loop that can be left before the last element (exit from block %s): the stored value is the extreme of a prefix only" % (
+                                          gfn.name, fld, early[0][0] if early else ""), loc=loc(i)))
             # ---- stores to fields: M2, M3, M5 ----
             rets = [x for x in fn.rets() if x.ops]
             cparam = fn.param_index("count")
